@@ -338,7 +338,7 @@ func TestVerifN2HGiveUp(t *testing.T) {
 	defer srv.Close()
 	httpclient = &http.Client{Timeout: 2 * time.Second}
 	*sample = 1.0
-	for _, attempts := range []uint16{1, 5, 6, 9} {
+	for _, attempts := range vfGiveUpAttempts("nsq_to_http", []uint16{1, 5, 6, 9}) {
 		src := vfNewStubNsqd()
 		cfg := nsq.NewConfig() // as in main()
 		cfg.MaxInFlight = *maxInFlight
